@@ -35,7 +35,7 @@ func specC16() *propertySpec {
 			{"C16-R2", "rename-last: no write is reachable from Rename; every path to Rename passes f.Close(); Rename's source is f.Name()", ruleC16R2},
 			{"C16-R3", "checked-writes: the error of every write is tested and its non-nil edge does not reach Rename", ruleC16R3},
 			{"C16-R4", "same-directory: CreateTemp's directory is filepath.Dir(filename), created by a checked MkdirAll before", ruleC16R4},
-			{"C16-R5", "disjoint-names: the temp pattern's first character is outside the alphabet of discovery names (letters, digits, '-', '_') and it does not end in .fail", ruleC16R5},
+			{"C16-R5", "disjoint-names: the temp pattern's first character is outside the alphabet of discovery names (letters, digits, '-', '_') and it does not end in .fail", func(r *Run) { ruleC16R5(r); ruleDiscoveryIsThePattern(r) }},
 			{"C16-R6", "temp-removed (advisory): a deferred os.Remove(f.Name()) is registered right after creation", ruleC16R6},
 		},
 	}
@@ -134,12 +134,37 @@ func ruleC16R1(r *Run) {
 	}
 	// every write targets the temp file
 	r.Floor("write calls in saveFailFile", len(v.writes), 2)
+	// one sink: the file itself, or one bufio.Writer wrapping it that is flushed (not in a defer) before the file is closed
+	sinks := map[string]bool{}
+	var buffered ssa.Value
 	for _, w := range v.writes {
+		if strings.HasSuffix(w.Key, ".Flush") {
+			continue
+		}
 		tgt := w.Recv()
 		if tgt == nil && len(w.Common.Args) > 0 {
 			tgt = w.Common.Args[0]
 		}
-		r.Check("saveFailFile#"+w.Key+".target", w.Instr.Pos(), p.same(tgt, v.file), "write goes to the CreateTemp file", "a write in saveFailFile targets "+p.expr(tgt)+" instead of the CreateTemp file")
+		okT := p.same(tgt, v.file)
+		if c, isCall := p.resolve(tgt).(*ssa.Call); isCall && !okT && (p.calleeKey(c.Common()) == "bufio.NewWriter" || p.calleeKey(c.Common()) == "bufio.NewWriterSize") && p.same(c.Common().Args[0], v.file) {
+			okT = true
+			buffered = c
+		}
+		sinks[p.expr(p.resolve(tgt))] = true
+		r.Check("saveFailFile#"+w.Key+".target", w.Instr.Pos(), okT, "write goes to the CreateTemp file", "a write in saveFailFile targets "+p.expr(tgt)+" instead of the CreateTemp file")
+	}
+	r.Check("saveFailFile#single-sink", v.fn.Pos(), len(sinks) <= 1, "all parts of the file are written through one sink, in program order", fmt.Sprintf("the fail file is written through %d different sinks (buffered and direct): the parts reach the file out of order, e.g. the data lines before the comment lines they follow", len(sinks)))
+	if buffered != nil {
+		okFlush := false
+		for _, cs := range p.callsTo(v.fn, "(*bufio.Writer).Flush") {
+			if cs.isDefer() || !p.same(cs.Recv(), buffered) {
+				continue
+			}
+			if iff, _ := p.errorTest(cs.Value(), 0); iff != nil && dominates(cs.Instr, v.rename.Instr) {
+				okFlush = true
+			}
+		}
+		r.Check("saveFailFile#flush-before-publish", v.fn.Pos(), okFlush, "the buffered writer is flushed (error checked) before the file is closed and renamed", "the buffered writer of saveFailFile is not flushed with its error checked on the path to os.Rename (a deferred Flush runs after the file was closed and renamed): part of the file never reaches the disk")
 	}
 }
 
@@ -353,6 +378,7 @@ func specC06() *propertySpec {
 			{"C06-R7", "private-io-state: the fail-file functions share no mutable package-level buffer or table (concurrently running checks load and save at the same time; shared with C15-R4)", func(r *Run) {
 				ruleSharedContents(r, map[string]bool{"loadFailFile": true, "saveFailFile": true, "checkFailFile": true, "failFileName": true, "failFilePattern": true, "kindaSafeFilename": true, "doCheck": true, "checkTB": true, "captureTestOutput": true}, 1)
 			}},
+			{"C06-R8", "written-whole-and-in-order: every part of the fail file is written through one sink to the temporary file, a buffered sink is flushed before the file is closed and renamed; write errors stop the save (shared with C16-R1/R2/R3)", func(r *Run) { ruleC16R1(r); ruleC16R2(r); ruleC16R3(r) }},
 			{"C06-R6", "saved-is-reported: captureTestOutput/saveFailFile/final replay use doCheck's buffer (#5) and seed (#3); saved iff failfile == \"\" && !nofailfile; target failFileName(tb.Name())", func(r *Run) { ruleC01R1(r); ruleC06R6(r) }},
 		},
 	}
@@ -1427,4 +1453,22 @@ func isAppendPhi(p *Program, v ssa.Value, want string) bool {
 		}
 	}
 	return found
+}
+
+
+// ruleDiscoveryIsThePattern: the disjointness of temporary and final names is relative to what the next run looks for:
+// doCheck must glob exactly failFilePattern(tb.Name()), not something wider (a directory-wide `*` also matches the
+// dot-named temporaries a crashed save leaves behind).
+func ruleDiscoveryIsThePattern(r *Run) {
+	p := r.P
+	dc := r.MustFn("doCheck")
+	if dc == nil {
+		return
+	}
+	n := 0
+	for _, gl := range p.callsTo(dc, "path/filepath.Glob") {
+		n++
+		r.Check("doCheck#glob-arg", gl.Instr.Pos(), strings.HasPrefix(p.expr(gl.Arg(0)), "failFilePattern("), "Glob is applied to failFilePattern(...)", "Glob is applied to "+p.expr(gl.Arg(0))+": temporaries of an interrupted save can match it")
+	}
+	r.Floor("Glob calls in doCheck", n, 1)
 }
